@@ -609,7 +609,7 @@ def dep_patterns(n):
 
 
 CORE_FORMS = ["alias", "alias-neg", "alias-sum0", "const", "const-zero", "factor"]
-PAIR_CORE = ["alias", "alias-diff0", "alias-neg", "const", "const-p", "const-k", "factor", "ifelse"]
+PAIR_CORE = ["alias", "alias-diff0", "alias-neg", "const", "const-k", "ifelse"]
 
 
 def core_option_sets():
@@ -666,7 +666,7 @@ def plan(tier):
                             elif pm == ident:
                                 sets = "near" if d == deps[0] else "core"
                             else:
-                                sets = "core" if pm == rev else "perm"
+                                sets = "perm"
                             out.append((Spec(forms, d, f0, pm), sets))
     # (B) 2 special forms: every pair of positions x pair of forms
     for pos in itertools.combinations(range(n), 2):
@@ -685,7 +685,10 @@ def plan(tier):
     # (C) full-length chains over the core alias / constant / factor forms
     for fs in itertools.product(CORE_FORMS, repeat=n):
         for pm in [ident, rev] if tier == "quick" else rots + [rev]:
-            sets = "core" if tier == "quick" or pm != ident else "near"
+            if tier == "quick":
+                sets = "core" if pm == ident else "perm"
+            else:
+                sets = "near" if pm == ident else "core"
             out.append((Spec(fs, deps[0], "a-last", pm), sets))
     # (D) non-triangular systems: alias cycles with inconsistent signs, mutually defined unknowns
     for sp in free_specs(tier):
